@@ -209,6 +209,8 @@ static const struct driver DRV[] = {
     { "Uisa2", 2, { b_use_isa0, b_use_isa1 }, 0, 0, 0, EC_BACKEND_ISA_L_RS_VAND, 3, 3, 3, 1 },
     { "Ucau", 2, { b_use_cau0, b_use_cau0 }, 0, 0, 0, EC_BACKEND_ISA_L_RS_CAUCHY, 3, 3, 3, 0 },
     { "Urs+cycle", 2, { b_use_rs0, b_rs_cycle }, 0, 0, 0, RS_, 3, 3, 3, 0 },
+    /* four threads (index 18): life cycles of three back ends at once, two of them rs_vand */
+    { "W4x", 4, { b_rs_cycle, b_xor_cycle, b_isa_cycle, b_rs_cycle }, 0, 0, 0 },
 };
 #define NDRV ((int)(sizeof DRV / sizeof DRV[0]))
 
@@ -389,7 +391,7 @@ static void engine(void)
     long drvmask = vh_opt("drvmask", 0);          /* bit i selects DRV[i]; 0: the first `drivers` entries */
     for (int di = 0; di < NDRV; di++) {
         if (drvmask ? !(drvmask >> di & 1) : di >= ndrv) continue;
-        CUR = &DRV[di]; BOUND = CUR->nthreads > 2 ? bound3 : (int)vh_opt("bound", 2);
+        CUR = &DRV[di]; BOUND = CUR->nthreads > 3 ? (int)vh_opt("bound4", 1) : CUR->nthreads > 2 ? bound3 : (int)vh_opt("bound", 2);
         vh_op(CUR->name);
         violating_execs = 0; have_golden = 0;
         /* the root execution (no deviation) is the sequential run: thread 0 to completion, then thread 1, ... */
